@@ -809,6 +809,21 @@ func (vm *vm) restoreStacks(iterLen, refLen uint32) (ex *Exception) {
 	return
 }
 
+// dropStacks truncates the iterator and reference stacks without closing the iterators.
+func (vm *vm) dropStacks(iterLen, refLen uint32) {
+	iterTail := vm.iterStack[iterLen:]
+	for i := range iterTail {
+		iterTail[i] = iterStackItem{}
+	}
+	vm.iterStack = vm.iterStack[:iterLen]
+	vm.vt("IterTrunc", "")
+	refTail := vm.refStack[refLen:]
+	for i := range refTail {
+		refTail[i] = nil
+	}
+	vm.refStack = vm.refStack[:refLen]
+}
+
 func (vm *vm) handleThrow(arg interface{}) *Exception {
 	ex := vm.exceptionFromValue(arg)
 	vm.vt("ThrowBegin", verifThrowClass(arg, ex))
@@ -828,7 +843,13 @@ func (vm *vm) handleThrow(arg interface{}) *Exception {
 		vm.sp = int(tf.sp)
 		vm.stash = tf.stash
 		vm.privEnv = tf.privEnv
-		_ = vm.restoreStacks(tf.iterLen, tf.refLen)
+		if ex != nil {
+			_ = vm.restoreStacks(tf.iterLen, tf.refLen)
+		} else {
+			// uncatchable (interrupt, stack overflow) or foreign panic: no script code may run, the open
+			// iterators are dropped without calling their return() method
+			vm.dropStacks(tf.iterLen, tf.refLen)
+		}
 
 		if tf.catchPos == tryPanicMarker {
 			vm.vt("Land", "marker")
